@@ -159,8 +159,7 @@ fn grammar_vs_library(text: &str, kind: &str) -> Result<LN, Failure> {
     if g.kind_name() != kind {
         return Err(Failure::new("grammar:kind", format!("text {text:?}\nvalue is a {kind}, the README grammar classifies it as a {}", g.kind_name())));
     }
-    let l = fmts::l(fmts::ASCII);
-    match guard(|| l.parse(text)) {
+    match crate::pipes::lexical_parse_raw(fmts::ASCII, text) {
         Err(p) => Err(Failure::new("library:panic", format!("text {text:?}\n{p}"))),
         Ok(Err(e)) => Err(Failure::new("library:rejects", format!("text {text:?}\nthe ASCII lexical parser fails: {e}"))),
         Ok(Ok(v)) => {
